@@ -33,10 +33,33 @@ const (
 	kTimeout               // fired timeout
 	kStep                  // round-state event written by newStep
 	kEndHeight             // end-of-height marker
+	// records whose ENCODING ends in one or more 0x00 bytes (a cut that drops only those bytes leaves a prefix
+	// that a zero-filled buffer would complete):
+	kEndHeightZ // end-of-height marker for the next height that is a power of 256 (256, 65536, 1<<24, ...): 1, 2, 3 trailing zero bytes
+	kStepZ      // round-state event whose last field (a string) ends in two NUL bytes
+	kPartZ      // block part from a peer whose id (the record's last field) ends in a NUL byte
 	numKinds
 )
 
-var kindNames = [...]string{"vote/peer", "vote/own", "proposal/peer", "proposal/own", "part100/peer", "part32k/peer", "part45k/peer", "partMax/peer", "timeout", "step", "endheight"}
+// trailingZero: the kinds whose encoding must end in 0x00 (checked when an image is written)
+func (k kind) trailingZero() bool { return k == kEndHeightZ || k == kStepZ || k == kPartZ }
+
+// markerHeight: the height a marker of kind k gets when the last marker written had height last (heights ascend,
+// as the node writes them).
+func markerHeight(k kind, last uint64) uint64 {
+	if k == kEndHeightZ {
+		h := uint64(256)
+		for h <= last {
+			h *= 256
+		}
+		return h
+	}
+	return last + 1
+}
+
+func (k kind) isMarker() bool { return k == kEndHeight || k == kEndHeightZ }
+
+var kindNames = [...]string{"vote/peer", "vote/own", "proposal/peer", "proposal/own", "part100/peer", "part32k/peer", "part45k/peer", "partMax/peer", "timeout", "step", "endheight", "endheight(256^k)", "step(string ends in NUL NUL)", "part100/peer(id ends in NUL)"}
 
 func (k kind) String() string { return kindNames[k] }
 
@@ -146,8 +169,12 @@ func mkMsg(k kind, pos int, h uint64) cs.WALMessage {
 		m = cs.VerifWALTimeout(3*time.Second, 1, pos, cstypes.RoundStepPropose)
 	case kStep:
 		m = types.EventDataRoundState{Height: 1, Round: pos, Step: cstypes.RoundStepPrevote.String()}
-	case kEndHeight:
+	case kEndHeight, kEndHeightZ:
 		m = cs.EndHeightMessage{Height: h}
+	case kStepZ:
+		m = types.EventDataRoundState{Height: 1, Round: pos, Step: cstypes.RoundStepPrevote.String() + "\x00\x00"}
+	case kPartZ:
+		m = cs.VerifWALMsg(&cs.BlockPartMessage{Height: 1, Round: 0, Part: part(pos, 100)}, "peer-2\x00")
 	default:
 		panic("kind")
 	}
